@@ -690,3 +690,61 @@ func init() {
 		Impl: depImpl, Readable: depReadable, TrustedBase: tb,
 	})
 }
+
+// encAST encodes a generator AST for the Lean specification's renderer (depgen).
+func encAST(d [][]gPoss) []string {
+	out := []string{strconv.Itoa(len(d))}
+	for _, rel := range d {
+		out = append(out, strconv.Itoa(len(rel)))
+		for _, p := range rel {
+			out = append(out, b01(p.Substvar), core.Hex(p.Name))
+			if p.Qual == "" {
+				out = append(out, "N")
+			} else {
+				out = append(out, "Q", core.Hex(p.Qual))
+			}
+			if p.Op == "" {
+				out = append(out, "N")
+			} else {
+				out = append(out, "V", core.Hex(p.Op), core.Hex(p.Num))
+			}
+			out = append(out, b01(p.ArchNeg), strconv.Itoa(len(p.Archs)))
+			for _, a := range p.Archs {
+				out = append(out, core.Hex(a))
+			}
+			out = append(out, strconv.Itoa(len(p.Stages)))
+			for _, g := range p.Stages {
+				out = append(out, strconv.Itoa(len(g)))
+				for _, s := range g {
+					out = append(out, b01(s.Not), core.Hex(s.Name))
+				}
+			}
+		}
+	}
+	return out
+}
+
+// streamDepspec: the Lean specification renders each AST under a random choice stream
+// (every legal spacing and clause order); the real parser must return what the AST denotes.
+func streamDepspec(g *core.G) {
+	r := g.R
+	n := g.N(2500, 120000)
+	for i := 0; i < n; i++ {
+		ast := genDepAST(r)
+		args := append(encAST(ast), genChoices(r, 96)...)
+		g.EmitGen(func(out string) []string {
+			f := strings.Fields(out)
+			if len(f) != 3 || f[2] != "1" {
+				return nil
+			}
+			return []string{"depspec " + f[0] + " " + f[1], "law-deprt " + f[0]}
+		}, "depgen", args...)
+	}
+}
+
+func init() {
+	depImpl["depspec"] = depImpl["depparse"]
+	p := core.Lookup("C04")
+	p.Streams = append(p.Streams, core.Stream{Name: "depspec", Gen: streamDepspec,
+		Domain: "dependency ASTs rendered by the Lean specification Spec.Dependency.render under a random 96-entry choice stream (white space from {none, blank, tab, LF+blank, two blanks, CRLF+tab, LF} in every legal slot, version / architecture clauses in either order interleaved with the profile groups); expected structure = Spec.Dependency.denote; the real parser's result must equal it"})
+}
